@@ -19,6 +19,8 @@ C12 — process-global tables of the compiler under concurrent use.
 (2) A table keyed by Rust type whose entries CACHE something that belongs to one
     runtime (the Roto name a runtime gives the type): first registration wins.
 -/
+import RotoV.Model.ConcShare
+
 namespace RotoV.Conc.Intern
 
 inductive Pc
@@ -98,5 +100,13 @@ def resolveOwn (c : List (Nat × Nat × Nat)) (rt ty : Nat) : Option Nat :=
 events of the other runtimes removed -/
 def alone (rt : Nat) (evs : List RegEv) : List RegEv :=
   evs.filter (fun e => match e with | .declare r _ _ => r == rt)
+
+/-- what runtime `rt` resolves Rust type `ty` to after the registrations `evs`,
+by the source of the name (generated per arm of `rust_type_to_roto_type`) -/
+def resolveBy (src : Share.NameSource) (evs : List RegEv) (rt ty : Nat) : Option Nat :=
+  match src with
+  | .ownList => resolveOwn (ownTable evs) rt ty
+  | .foreign => resolveCached (cacheRun [] evs) ty
+  | .structural => none
 
 end RotoV.Conc.Intern
